@@ -132,8 +132,30 @@ func (x *Exec) iteValue(c *smt.Term, a, b Value) Value {
 		if b == nil {
 			return nil
 		}
+	case PtrV:
+		if bv, ok := b.(PtrV); ok && av.Obj == nil && bv.Obj == nil {
+			return av
+		}
+	case SliceV:
+		if bv, ok := b.(SliceV); ok && av.Nil && bv.Nil {
+			return av
+		}
 	}
-	x.Unsupported("cannot merge results of type %T", a)
+	// errors: nil / ErrV / CondErrV in any combination
+	if ea, ok := x.errCond(a); ok {
+		if eb, ok := x.errCond(b); ok {
+			r := CondErrV{Cond: B.Ite(c, ea.Cond, eb.Cond), E: ea.E}
+			if ea.Cond.IsFalse() {
+				r.E = eb.E
+			}
+			r.Mixed = ea.Mixed || eb.Mixed || (!ea.Cond.IsFalse() && !eb.Cond.IsFalse() && ea.E.Root != eb.E.Root)
+			if r.Cond.IsFalse() {
+				return IfaceV{}
+			}
+			return r
+		}
+	}
+	x.Unsupported("cannot merge results of type %T and %T", a, b)
 	return nil
 }
 
@@ -154,4 +176,51 @@ func (x *Exec) mergeBranch(c *smt.Term) bool {
 		ms.conds = append(ms.conds, x.B.Not(c))
 	}
 	return d
+}
+
+// AssumeLocal is an assumption that only holds on the current branch: inside a merged
+// callee it becomes part of that branch's condition instead of a global fact.
+func (x *Exec) AssumeLocal(c *smt.Term, label string) {
+	if x.merge != nil {
+		x.merge.conds = append(x.merge.conds, c)
+		return
+	}
+	x.Assume(c, label)
+}
+
+// errCond views nil / ErrV / CondErrV uniformly.
+func (x *Exec) errCond(v Value) (CondErrV, bool) {
+	switch u := v.(type) {
+	case CondErrV:
+		return u, true
+	case ErrV:
+		return CondErrV{Cond: x.B.True, E: u}, true
+	case IfaceV:
+		if u.T == nil && u.V == nil {
+			return CondErrV{Cond: x.B.False}, true
+		}
+		if e, ok := u.V.(ErrV); ok {
+			return CondErrV{Cond: x.B.True, E: e}, true
+		}
+	case nil:
+		return CondErrV{Cond: x.B.False}, true
+	}
+	return CondErrV{}, false
+}
+
+// concErr decides a symbolic error (forking if both are possible).
+func (x *Exec) concErr(v Value) Value {
+	ce, ok := v.(CondErrV)
+	if !ok {
+		return v
+	}
+	if x.Branch(ce.Cond) {
+		if ce.Mixed {
+			e := ce.E
+			e.Root = ""
+			return e
+		}
+		return ce.E
+	}
+	return IfaceV{}
 }
